@@ -15,5 +15,5 @@ elif [ "$patch" != "-" ]; then
   (cd $S && patch -p1 -s < "$patch") || { echo "PATCH FAILED"; rm -rf $S $V; exit 3; }
 fi
 if [ -n "${BUILD:-}" ]; then (cd $S && GOFLAGS=-mod=mod GOPROXY=off GOSUMDB=off go build ./... ) || echo "BUILD FAILED"; fi
-VERIF_REPO=$S VERIF_DIR=$V /verif/bin/verifcheck $props --tier quick 2>&1 | cut -c1-${CUT:-400} | grep -v "^  DISCHARGED" | head -${HEAD:-30}
+VERIF_REPO=$S VERIF_DIR=$V ${VERIFCHECK:-/verif/bin/verifcheck} $props --tier quick 2>&1 | cut -c1-${CUT:-400} | grep -v "^  DISCHARGED" | head -${HEAD:-30}
 rm -rf $S $V
